@@ -10,7 +10,9 @@ import (
 	"errors"
 	"fmt"
 	"os"
+	"runtime"
 	"syscall"
+	"time"
 
 	libaudit "github.com/elastic/go-libaudit/v2"
 
@@ -130,6 +132,46 @@ func probeCloseErr(kind string, setPID bool) string {
 	return ""
 }
 
+// probeForgotten: a client made by the library's own constructor (whatever the constructor arranges besides filling the
+// struct: finalizers, goroutines, registrations), its transport replaced by the counting one, closed with the
+// transport's Close failing, then forgotten. After two garbage collections the transport has been closed exactly once.
+// Needs a NETLINK_AUDIT socket ("" with a note when there is none).
+func probeForgotten(kind string, setPID bool) (clause, note string) {
+	f := &probeNL{errAt: map[uint32]int32{}}
+	switch kind {
+	case "eintr":
+		f.closeErr = syscall.EINTR
+	case "eio":
+		f.closeErr = syscall.EIO
+	}
+	func() {
+		cl, err := libaudit.NewAuditClient(nil)
+		if err != nil {
+			note = "cannot open a NETLINK_AUDIT socket: " + err.Error()
+			return
+		}
+		real := cl.Netlink
+		cl.Netlink = f
+		defer real.Close()
+		if setPID {
+			cl.SetPID(libaudit.NoWait)
+		}
+		cl.Close()
+		cl.Close()
+	}()
+	if note != "" {
+		return "", note
+	}
+	for i := 0; i < 3; i++ {
+		runtime.GC()
+		time.Sleep(20 * time.Millisecond)
+	}
+	if f.closes != 1 {
+		return fmt.Sprintf("C17: a client made by NewAuditClient was closed (the transport's Close returning %v, SetPID used: %v) and then forgotten; after the garbage collector had run, the socket had been closed %d times", f.closeErr, setPID, f.closes), ""
+	}
+	return "", ""
+}
+
 func runClientProbes(ctx *Ctx) {
 	res := ctx.Res
 	own := func(cl string) bool { return ownClause(cl, ctx.Prop) }
@@ -158,6 +200,22 @@ func runClientProbes(ctx *Ctx) {
 				}
 			}
 		}
+		for _, kind := range []string{"nil", "eintr", "eio"} {
+			for _, pid := range []bool{false, true} {
+				in := map[string]interface{}{"kind": "probe-forgotten-client", "close_returns": kind, "set_pid": pid}
+				guardEnter(in)
+				cl, note := probeForgotten(kind, pid)
+				guardLeave()
+				if note != "" {
+					res.Note("forgotten-client probe NOT run: %s", note)
+					break
+				}
+				res.Hist("probe: a closed client is forgotten and collected")
+				if cl != "" {
+					res.Violate(common.Violation{Kind: "monitor", Clause: cl, Input: in})
+				}
+			}
+		}
 	}
 }
 
@@ -167,6 +225,11 @@ func replayClientProbe(in map[string]interface{}) bool {
 	case "probe-many-pending":
 		n, _ := in["requests"].(float64)
 		fmt.Printf("%d NoWait requests, then the waits: %q (empty = as stated)\n", int(n), probeManyPending(int(n)))
+	case "probe-forgotten-client":
+		k, _ := in["close_returns"].(string)
+		p, _ := in["set_pid"].(bool)
+		cl, note := probeForgotten(k, p)
+		fmt.Printf("client from NewAuditClient, transport Close returns %s, SetPID used %v, closed, forgotten, collected: %q %s (empty = closed exactly once)\n", k, p, cl, note)
 	case "probe-close-error":
 		k, _ := in["close_returns"].(string)
 		p, _ := in["set_pid"].(bool)
